@@ -47,7 +47,8 @@ import objectives  # noqa: E402
 import impl as implmod  # noqa: E402
 
 RULE = ("A: case = (objective spec, box, N in 1..4, eps, r, itersLimit in 1..60, density, refineSolution 20%, listener "
-        "subsets (1..3 listeners, each a subset mask 0..15 of overridden callbacks), batching of 1..6 calls); every 16th "
+        "subsets (1..3 listeners, each a subset mask 0..15 of overridden callbacks, in 30% of the cases partly inherited from an "
+        "intermediate class; 2% long runs of 450/700 trials), batching of 1..6 calls); every 16th "
         "case cycles deterministically through all 16 masks so that each subset is attached alone at least once; "
         "B-console: mode x iters x batching (k >= 1) x dimension; B-paint: painter configuration x dimension, one Solve. "
         "Non-trivial: at least 2 trials and at least one overriding listener (A) / at least 2 trials (B). "
@@ -59,8 +60,9 @@ CB = ["BeforeMethodStart", "OnEndIteration", "OnMethodStop", "OnRefrash"]
 # ------------------------------------------------------------------------------------------------
 # building blocks
 # ------------------------------------------------------------------------------------------------
-def make_listener_class(mask, events, tag, ctx):
-    """Listener subclass overriding the callbacks in `mask`; every override appends to `events`"""
+def make_listener_class(mask, events, tag, ctx, base_mask=0):
+    """Listener subclass overriding the callbacks in `mask`; every override appends to `events`.  The callbacks in
+    `base_mask` (a subset of `mask`) are defined in an INTERMEDIATE class between Listener and the class that is instantiated."""
     from iOpt.method.listener import Listener
 
     def before(self, method):
@@ -81,6 +83,11 @@ def make_listener_class(mask, events, tag, ctx):
     def refrash(self, searchData):
         events.append({"l": tag, "cb": "refrash", "op": ctx["op"]})
     impls = [before, end, stop, refrash]
+    base_mask &= mask
+    if base_mask:
+        mid = type(f"B{base_mask}_{tag}", (Listener,), {CB[i]: impls[i] for i in range(4) if base_mask >> i & 1})
+        leaf = {CB[i]: impls[i] for i in range(4) if (mask & ~base_mask) >> i & 1}
+        return type(f"L{mask}_{tag}", (mid,), leaf)
     body = {CB[i]: impls[i] for i in range(4) if mask >> i & 1}
     return type(f"L{mask}_{tag}", (Listener,), body)
 
@@ -183,6 +190,17 @@ def gen_case_a(r, idx):
             ops.append("G")
     case = {"part": "A", "spec": objectives.gen_spec(r, n), "lower": lo, "upper": hi, "params": params, "masks": masks,
             "ops": ops}
+    if r.random() < 0.3:
+        # some callbacks are inherited from an intermediate class instead of being defined in the listener's own class
+        case["via"] = [r.randrange(16) for _ in masks]
+    if r.random() < 0.02:
+        # a LONG run with a passive listener (hundreds of trials, so that the record is a long chain of linked items)
+        n2 = 2
+        lo2, hi2 = oc.gen_box(r, n2)
+        case.update(spec=objectives.gen_spec(r, n2), lower=lo2, upper=hi2, ops=["S"], masks=[r.choice([2, 6, 7])])
+        case.pop("via", None)
+        case["params"] = {"eps": 1e-9, "r": round(r.uniform(2, 4), 2), "itersLimit": r.choice([450, 700]), "evolventDensity": 10,
+                          "refineSolution": False}
     if r.random() < 0.1:
         case["ops"] = (["I1"] if r.random() < 0.5 else []) + ["S"]
         case["fail_at"] = r.randint(2, 6)
@@ -200,7 +218,7 @@ def run_case_a(case):
     ctx = {"problem": prob, "solver": sv, "op": -1}
     for j, mask in enumerate(case["masks"]):
         try:
-            sv.AddListener(make_listener_class(mask, events, j, ctx)())
+            sv.AddListener(make_listener_class(mask, events, j, ctx, (case.get("via") or [0] * 8)[j])())
         except Exception as e:     # noqa: BLE001
             viol.append({"what": "attaching a listener raised", "mask": mask, "error": f"{type(e).__name__}: {e}"})
             return viol, {}
